@@ -24,6 +24,21 @@ def handle (b : Backend) (line : String) : Backend × String :=
       let (b', stored) := b.queue ⟨value, extra, idh⟩
       (b', s!"sct {toHex (rfcLeafH stored.value)} {if known then "dup" else "new"}")
     | _, _, _ => (b, "bad-op")
+  -- the leaf is built here from the RFC layout: `subx idhash ts cert extra` / `subp idhash ts keyhash tbs extra`
+  | ["subx", idh, ts, cert, extra] =>
+    match fromHex idh, parseNat? ts, fromHex cert, fromHex extra with
+    | some idh, some ts, some cert, some extra =>
+      let known := (b.find idh).isSome
+      let (b', stored) := b.queue ⟨encLeaf (.x509 cert) ts, extra, idh⟩
+      (b', s!"sct {toHex (rfcLeafH stored.value)} {if known then "dup" else "new"}")
+    | _, _, _, _ => (b, "bad-op")
+  | ["subp", idh, ts, kh, tbs, extra] =>
+    match fromHex idh, parseNat? ts, fromHex kh, fromHex tbs, fromHex extra with
+    | some idh, some ts, some kh, some tbs, some extra =>
+      let known := (b.find idh).isSome
+      let (b', stored) := b.queue ⟨encLeaf (.precert kh tbs) ts, extra, idh⟩
+      (b', s!"sct {toHex (rfcLeafH stored.value)} {if known then "dup" else "new"}")
+    | _, _, _, _, _ => (b, "bad-op")
   | ["seq", k, ts] =>
     match parseNat? k, parseNat? ts with
     | some k, some ts =>
